@@ -803,17 +803,36 @@ func (w *world) checkCanary(why string) {
 		}
 		return
 	}
-	n := w.checkN.Add(1)
-	id := fmt.Sprintf("b%d-fresh-%d", w.batch, n)
-	c, err := dialHS(w.srv, id)
-	if err != nil {
-		w.run.Violation("fresh-connection-refused", "a fresh websocket connection could not be established: "+err.Error(), map[string]any{"tier": "ws", "batch": w.batch, "when": why})
-		return
+	// a fresh client is admitted (retried: a connection of the harness can be lost to galene's
+	// 500 ms write deadline when the machine is overloaded; a refusal is never retried away)
+	var last string
+	for try := 0; try < 4; try++ {
+		n := w.checkN.Add(1)
+		c, err := dialHS(w.srv, fmt.Sprintf("b%d-fresh-%d", w.batch, n))
+		if err != nil {
+			last = "no connection: " + err.Error()
+			continue
+		}
+		m, ok := c.Join("canary", "op2", "pw-op2")
+		c.Close()
+		if ok && m.Str("kind") == "join" {
+			last = ""
+			break
+		}
+		if ok {
+			w.run.Violation("fresh-join-refused", fmt.Sprintf("a fresh client with valid credentials was refused by an untouched group (reply %v)", m), map[string]any{"tier": "ws", "batch": w.batch, "when": why})
+			return
+		}
+		_, cerr := c.Closed()
+		last = fmt.Sprintf("connection lost before the reply to join: %v", cerr)
 	}
-	defer c.Close()
-	m, ok := c.Join("canary", "op2", "pw-op2")
-	if !ok || m.Str("kind") != "join" {
-		w.run.Violation("fresh-join-refused", fmt.Sprintf("a fresh client with valid credentials could not join an untouched group (reply %v)", m), map[string]any{"tier": "ws", "batch": w.batch, "when": why})
+	if last != "" {
+		if w.stall.recent() {
+			w.bad.Store(true)
+			w.run.Inconclusive("fresh connections kept failing while the process was starved (" + why + "): " + last)
+		} else {
+			w.run.Violation("fresh-connection-refused", "four fresh websocket connections in a row could not handshake and join an untouched group: "+last, map[string]any{"tier": "ws", "batch": w.batch, "when": why})
+		}
 		return
 	}
 	w.run.Count("canary_checks_passed", 1)
